@@ -123,7 +123,8 @@ def join2(a, b):
 @contract('gemato/recursiveloader.py', 'SubprocessVerifier._verify_one_file', props=['C01', 'C07', 'C16', 'C06', 'C18'])
 def _(c):
     c.params(self=SV, path=Str, relpath=Str, e=Opt(PathEntry))
-    c.returns(Any)
+    c.returns(Bool)
+    c.note('A-types: the failure handler returns a bool or None (the call sites combine the result with &=)')
     c.only_raises('ManifestCrossDevice', 'OSError', 'UnsupportedHash', '<opaque>')
     c.note('<opaque>: the exception the failure handler raises (ManifestMismatch with the default handler)')
 
@@ -268,3 +269,126 @@ def opt_term_b(x):
     if z3.is_bool(x):
         return OB.some(x)
     return x
+
+
+# --------------------------------------------------------------------------
+# SubprocessVerifier.__call__: the per-directory step of C01 / C07
+
+SetStr = z3.ArraySort(z3.StringSort(), z3.BoolSort())
+OptEnt = opt_sort(z3.IntSort())
+EMPTYSET = z3.K(z3.StringSort(), z3.BoolVal(False))
+
+
+def visible(s, f):
+    """a file name of the walked directory that verification must look at: not hidden, not the top-level Manifest itself"""
+    return z3.And(z3.Not(z3.PrefixOf(STR('.'), f)), join2(s.relpath_, f) != s.self.top_level_manifest_filename)
+
+
+visible_set = S.Fold('visible_set', SetStr, init=lambda env, rel, top: EMPTYSET,
+                     step=lambda env, acc, f, idx, rel, top: z3.If(
+                         z3.And(z3.Not(z3.PrefixOf(STR('.'), f)), join2(rel, f) != top), z3.Store(acc, f, z3.BoolVal(True)), acc))
+name_set = S.Fold('name_set', SetStr, init=lambda env: EMPTYSET,
+                  step=lambda env, acc, f, idx: z3.Store(acc, f, z3.BoolVal(True)))
+
+
+@contract('gemato/recursiveloader.py', 'SubprocessVerifier.__call__', props=['C01', 'C07', 'C18'])
+def _(c):
+    c.params(self=SV, vals=TupleT(Str, Str, ListT(Str), SeqT(Str), DictT(Str, PathEntry)))
+    c.returns(Bool)
+    c.only_raises('ManifestCrossDevice', 'OSError', 'UnsupportedHash', '<opaque>')
+    c.note('ghost state: handed = keys of the directory dict whose entry was passed to _verify_one_file; '
+           'checked = file names of the directory passed to it in the second loop; allok = conjunction of the results')
+
+    def setup(it, fr, bound):
+        v = bound['vals']
+        it.entry_args['dirpath_'] = v.items[0]
+        it.entry_args['relpath_'] = v.items[1]
+        it.entry_args['dirnames_'] = v.items[2]
+        it.entry_args['filenames_'] = v.items[3]
+        it.entry_args['D0'] = VMap(v.items[4].content.t, Str, PathEntry)
+    c.setup = setup
+
+    GH = {'handed': SetT(Str), 'checked': SetT(Str), 'allok': Bool}
+
+    def terms(g):
+        return {k: (v.content.t if hasattr(v, 'content') else v) for k, v in g.items()}
+
+    def update(keyname, second_loop=False):
+        def upd(s):
+            handed, checked, allok = s.handed, s.checked, s.allok
+            for rec in s.calls:
+                if not rec[0].endswith('_verify_one_file'):
+                    continue
+                key = getattr(s.cur, keyname)
+                e = rec[3][0][2]
+                from vp.contract import UnionView
+                ev = rec[1][2]
+                had_entry = z3.BoolVal(True) if not (ev is None or isinstance(ev, UnionView)) else \
+                    (z3.BoolVal(False) if ev is None else z3.Not(ev.is_none))
+                handed = z3.If(had_entry, z3.Store(handed, key, z3.BoolVal(True)), handed)
+                if second_loop:
+                    checked = z3.Store(checked, key, z3.BoolVal(True))
+                allok = z3.And(allok, rec.result)
+            return {'handed': handed, 'checked': checked, 'allok': allok}
+        return upd
+
+    def dict_is_d0_minus_handed(s):
+        k = z3.Const('k', z3.StringSort())
+        return s.cur.dirdict == z3.Lambda([k], z3.If(z3.Select(s.handed, k), OptEnt.none, z3.Select(s.D0, k)))
+
+    def handed_only_entries(s):
+        k = z3.Const('k', z3.StringSort())
+        return True
+
+    common = [('no-entry-dropped-unchecked', dict_is_d0_minus_handed),
+              ('only-entries-are-handed', lambda s: _union(s.handed, _dom(s.D0)) == _dom(s.D0)),
+              ('result-is-the-conjunction', lambda s: s.cur.ret == s.allok)]
+    init = lambda s: {'handed': EMPTYSET, 'checked': EMPTYSET, 'allok': z3.BoolVal(True)}
+    c.loop(1, header='for d in dirnames', vars={'de': None, 'dpath': None}, ghosts={k: v for k, v in GH.items()},
+           ghost_init=init, ghost_update=update('d'),
+           inv=common + [('nothing-checked-as-file-yet', lambda s: s.checked == EMPTYSET)])
+    c.loop(2, header='for f in filenames', vars={'fe': None, 'fpath': None}, ghosts={k: v for k, v in GH.items()},
+           ghost_init=lambda s: {'handed': s.handed, 'checked': s.checked, 'allok': s.allok}, ghost_update=update('f', True),
+           inv=common + [('every-visible-file-so-far-was-checked',
+                          lambda s: s.checked == visible_set(s, s.seq, s.i, s.relpath_, s.self.top_level_manifest_filename))])
+    c.loop(3, header='for (f, e) in dirdict.items()', vars={'fpath': None}, ghosts=dict(GH, handed3=SetT(Str)),
+           ghost_init=lambda s: {'handed': s.handed, 'checked': s.checked, 'allok': s.allok, 'handed3': s.handed},
+           ghost_update=update('f'),
+           inv=[('result-is-the-conjunction', lambda s: s.cur.ret == s.allok),
+                ('only-entries-are-handed', lambda s: _union(s.handed3, _dom(s.D0)) == _dom(s.D0)),
+                ('left-over-entries-checked-so-far',
+                 lambda s: z3.And(s.seq == _keys_of(s.cur.dirdict),
+                                  s.handed == _union(s.handed3, name_set(s, s.seq, s.i)))),
+                ('visible-files-stay-checked', lambda s: s.checked == visible_set(
+                    s, s.filenames_, z3.Length(s.filenames_), s.relpath_, s.self.top_level_manifest_filename)),
+                ('dict-unchanged-in-the-last-loop', lambda s: _dict_at_loop3(s))],
+           assume_seq=lambda s: name_set(s, s.seq, z3.Length(s.seq)) == _dom(s.cur.dirdict))
+
+    def everything_checked(s):
+        """C01/C07: every entry of the directory dict was passed to a check, every visible file of the
+        directory was checked (with its entry or as a stray), and the result is the conjunction of the answers"""
+        return z3.And(s.handed == _dom(s.D0),
+                      s.checked == visible_set(s, s.filenames_, z3.Length(s.filenames_), s.relpath_, s.self.top_level_manifest_filename),
+                      s.result == s.allok)
+    c.ensures('every-entry-and-every-visible-file-checked-result-is-conjunction', everything_checked, internal=True)
+
+
+def _dom(d):
+    k = z3.Const('k', z3.StringSort())
+    return z3.Lambda([k], z3.Not(OptEnt.is_none(z3.Select(d, k))))
+
+
+def _union(a, b):
+    k = z3.Const('k', z3.StringSort())
+    return z3.Lambda([k], z3.Or(z3.Select(a, k), z3.Select(b, k)))
+
+
+def _keys_of(d):
+    from vp.lib import sort_tag
+    f = z3.Function('py_keys_insertion_' + sort_tag(d.sort()), d.sort(), z3.SeqSort(z3.StringSort()))
+    return f(d)
+
+
+def _dict_at_loop3(s):
+    k = z3.Const('k', z3.StringSort())
+    return s.cur.dirdict == z3.Lambda([k], z3.If(z3.Select(s.handed3, k), OptEnt.none, z3.Select(s.D0, k)))
